@@ -277,8 +277,11 @@ func c09Run(c *Ctx, tp *tape.Tape, extra map[string]any) *Failure {
 					c.Count("faults_in_flight:"+fk, 1)
 				}
 			}
-			if k, m := judgeFault(r, oo, f, approve); k != "" && !c.NoteKnown(k) {
-				return mkFail(k, m, r, &f)
+			if k, m := judgeFault(r, oo, f, approve); k != "" {
+				if !c.NoteKnown(k) {
+					return mkFail(k, m, r, &f)
+				}
+				continue
 			}
 			if k, m := judgeOK(r, oo, approve); k != "" && !c.NoteKnown(k) {
 				return mkFail(k, m, r, &f)
